@@ -76,4 +76,28 @@ CLAIMS = {
         "note": _STD_NOTE + " The registry counts task.hash (the attribute); whether that attribute reflects the current identity is C17.3.",
         "technique": "static analysis: CFG must-pass pairing, who-may-write by receiver class, statement order",
     },
+    "C21": {
+        "text": "Consumer/producer dispatch agreement between _find_arg_upstreams and the in-job deduplication callback, evaluated for every concrete "
+        "ApplyExpression class through the class hierarchy; publication of call_hash, maintenance of _upstreams, and the row structure of _record_args.",
+        "note": _STD_NOTE + " Undecided: the recorded rows of a particular run.",
+        "technique": "static analysis: isinstance decision tables over the resolved class hierarchy, structural writer rules",
+    },
+    "C16": {
+        "text": "Structural canonicalisation of unordered containers: sorting proxies for every builtin unordered type, the default container hash must not "
+        "pickle opaquely, no process-dependent quantity in any value hash, one pickling entry point with a constant protocol.",
+        "note": _STD_NOTE + " Known finding recorded: nested sets inside containers are pickled opaquely. Undecided: byte-level pickle determinism of arbitrary user objects.",
+        "technique": "static analysis: class-constant/registry table extraction, who-may-call, forbidden-flow rules",
+    },
+    "C30": {
+        "text": "Mutator-refresh typestate over the File/FileSet/Dir hierarchy (every filesystem mutation under a value is followed by update_hash on all paths), "
+        "totality of hashing on a missing path (guard or matching try/except, including the four filesystem siblings), rehash-on-close hook, content-only hashing.",
+        "note": _STD_NOTE + " The table of calls that raise on a missing path is frozen in sa/filerules.py. Undecided: equality with a fresh hash at run time.",
+        "technique": "static analysis: CFG must-pass (typestate), exception-guard analysis, deviant-sibling cross-check",
+    },
+    "C04": {
+        "text": "Every `is_cached=True` return of Scheduler._get_cache is a CSE hit or dominated by the nested validity test; the validity chain visits every leaf; "
+        "validity testing is total on missing paths for all file value classes; immutables are constant-valid; handles ask the backend.",
+        "note": _STD_NOTE + " Undecided: that re-execution yields a result reflecting the external state.",
+        "technique": "static analysis: CFG dominance by branch outcomes, method resolution through the class hierarchy, exception-guard analysis",
+    },
 }
